@@ -306,10 +306,35 @@ func checkFastInvokeFailureBranch(c *report.Ctx) {
 		}
 	}
 	ok = ok && cached != nil && def != nil
+	isCached := func(v ssa.Value) bool { return an.IsResultOf(v, srvT+".getCachedInitErrorResponse", -1) }
 	if ok {
-		isCached := func(v ssa.Value) bool { return an.IsResultOf(v, srvT+".getCachedInitErrorResponse", -1) }
 		ok = facts.Holds(cached.Block(), func(ft an.Fact) bool { return an.CmpNil(ft, false, isCached) }) &&
 			facts.Holds(def.Block(), func(ft an.Fact) bool { return an.CmpNil(ft, true, isCached) })
+	} else if len(sends) == 1 {
+		// the choice made first and sent once: the response handed over joins the cached payload, chosen where it is
+		// known to be there, and the default, chosen where it is known not to be
+		if ph, isPhi := an.Strip(sends[0].Common().Args[2], false).(*ssa.Phi); isPhi && len(ph.Edges) == 2 {
+			nc, nd := 0, 0
+			for i, e := range ph.Edges {
+				p := ph.Block().Preds[i]
+				knownThere := facts.Holds(p, func(ft an.Fact) bool { return an.CmpNil(ft, false, isCached) })
+				if iff, isIf := p.Instrs[len(p.Instrs)-1].(*ssa.If); isIf && !knownThere && len(p.Succs) == 2 && p.Succs[0] != p.Succs[1] {
+					// (the edge itself may be the one that says so: `r := cached; if r == nil { r = default }`)
+					for k, sx := range p.Succs {
+						if sx == ph.Block() && an.CmpNil(an.Fact{Cond: iff.Cond, Val: k == 0}, false, isCached) {
+							knownThere = true
+						}
+					}
+				}
+				if isCached(e) && knownThere {
+					nc++
+				}
+				if fr, k := an.AsField(an.Strip(e, false)); k && fr.Field == "DefaultErrorResponse" && facts.Holds(p, func(ft an.Fact) bool { return an.CmpNil(ft, true, isCached) }) {
+					nd++
+				}
+			}
+			ok = nc == 1 && nd == 1
+		}
 	}
 	c.Check("R-GUARD", name+"/cached-init-error-else-default", "a failed invocation is answered with the runtime's own init-error payload when there is one, else with the default error naming the first fault", ok, fpos(g), 2, "%v", ok)
 	// body before DONE(fail)
